@@ -26,6 +26,10 @@ import (
 
 var keySubst = map[ast.Node]string{}
 
+// singleDef: local variables with exactly one definition in their function (whatever its
+// right-hand side) -> that expression. Used to look through variables captured by closures.
+var singleDef = map[types.Object]ast.Expr{}
+
 // astSubst: for boolean-valued substitutions whose defining expression lives in the same naming
 // context (a temporary of the same function; a parameterless helper whose receiver has the same
 // name as the receiver expression at the call site) the expression itself, so that branch
@@ -392,6 +396,11 @@ func substTemporaries(info *types.Info, fd *ast.FuncDecl) {
 		return ok
 	}
 	subst := map[types.Object]ast.Expr{}
+	for o, d := range defs {
+		if _, isVar := o.(*types.Var); isVar && !d.bad && d.n == 1 && d.rhs != nil {
+			singleDef[o] = d.rhs
+		}
+	}
 	for o, d := range defs {
 		v, isVar := o.(*types.Var)
 		if !isVar || d.bad || d.n != 1 || d.rhs == nil || v.Name() == "_" || v.Name() == "err" || v.Name() == "ok" {
